@@ -2,6 +2,7 @@ package main
 
 import (
 	"fmt"
+	"go/token"
 	"go/types"
 	"sort"
 	"strings"
@@ -82,6 +83,7 @@ func init() {
 			le := newLockEngine(r.P)
 			ruleG1(r, le)
 			ruleG2(r)
+			ruleA1(r)
 		},
 	})
 }
@@ -249,5 +251,125 @@ func ruleG2(r *Run) {
 			}
 		}
 		r.Check("exempt "+e.Func, ok, p.pos(fn.Pos()), e.Func, "exempt reader must be called only from closures passed to errgroup.Group.Go inside (*Conn).run")
+	}
+}
+
+// ruleA1: a field that is accessed through sync/atomic anywhere must not be read or written plainly elsewhere.
+func ruleA1(r *Run) {
+	r.Begin("A1", "atomic discipline: a struct field whose address is passed to a sync/atomic function anywhere in the module is never loaded or stored plainly on a shared object elsewhere — including by copying the whole struct (a method with a value receiver) — except while constructing the object", 8)
+	p := r.P
+	atomicFields := map[*types.Var]string{}
+	for _, fn := range p.Funcs {
+		allInstrs(fn, func(ins ssa.Instruction) {
+			cc := instrCall(ins)
+			if cc == nil {
+				return
+			}
+			o := calleeObj(cc)
+			if o == nil || o.Pkg() == nil || o.Pkg().Path() != "sync/atomic" || len(cc.Args) == 0 {
+				return
+			}
+			if fa, ok := cc.Args[0].(*ssa.FieldAddr); ok {
+				if f := fieldOf(fa.X.Type(), fa.Field); f != nil {
+					if owner := namedOf(fa.X.Type()); owner != nil && strings.HasPrefix(owner.Obj().Pkg().Path(), modPath) {
+						atomicFields[f] = fieldKey(owner, f)
+					}
+				}
+			}
+		})
+	}
+	r.Stat("atomically_accessed_fields", len(atomicFields))
+	// struct types containing such a field
+	ownerOf := map[*types.Named][]*types.Var{}
+	for f, fk := range atomicFields {
+		_ = fk
+		for _, pk := range p.Pkgs {
+			sc := pk.Types.Scope()
+			for _, nm := range sc.Names() {
+				tn, ok := sc.Lookup(nm).(*types.TypeName)
+				if !ok {
+					continue
+				}
+				n, ok := tn.Type().(*types.Named)
+				if !ok {
+					continue
+				}
+				st, ok := n.Underlying().(*types.Struct)
+				if !ok {
+					continue
+				}
+				for i := 0; i < st.NumFields(); i++ {
+					if st.Field(i) == f {
+						ownerOf[n] = append(ownerOf[n], f)
+					}
+				}
+			}
+		}
+	}
+	seen := map[string]bool{}
+	for _, fn := range p.Funcs {
+		name := fnName(fn)
+		allInstrs(fn, func(ins ssa.Instruction) {
+			switch x := ins.(type) {
+			case *ssa.UnOp:
+				if x.Op != token.MUL {
+					return
+				}
+				// plain load of the field
+				if fa, ok := x.X.(*ssa.FieldAddr); ok {
+					if f := fieldOf(fa.X.Type(), fa.Field); f != nil {
+						if fk, isAt := atomicFields[f]; isAt && !isLocalObject(pathOf(fa.X)) {
+							key := name + " plain read " + fk
+							if !seen[key] {
+								seen[key] = true
+								r.Check(key, false, p.pos(x.Pos()), name, "plain (non-atomic) read of "+fk+", which is updated with sync/atomic elsewhere")
+							}
+						}
+					}
+					return
+				}
+				// copy of a whole struct that contains an atomic field, through a pointer to a shared object
+				if n := namedOf(x.Type()); n != nil {
+					if _, isPtr := x.Type().Underlying().(*types.Pointer); isPtr {
+						return
+					}
+					if fs, has := ownerOf[n]; has {
+						if _, isStruct := x.Type().Underlying().(*types.Struct); !isStruct {
+							return
+						}
+						if pt := pathOf(x.X); pt != nil && !isLocalObject(pt) {
+							if _, isAlloc := x.X.(*ssa.Alloc); isAlloc {
+								return
+							}
+							key := name + " copies " + tname(n)
+							if !seen[key] {
+								seen[key] = true
+								r.Check(key, false, p.pos(x.Pos()), name, fmt.Sprintf("the whole %s is copied with a plain read (e.g. to call a value-receiver method) while its field %s is updated with sync/atomic elsewhere", tname(n), fs[0].Name()))
+							}
+						}
+					}
+				}
+			case *ssa.Store:
+				if fa, ok := x.Addr.(*ssa.FieldAddr); ok {
+					if f := fieldOf(fa.X.Type(), fa.Field); f != nil {
+						if fk, isAt := atomicFields[f]; isAt && !isLocalObject(pathOf(fa.X)) {
+							key := name + " plain write " + fk
+							if !seen[key] {
+								seen[key] = true
+								r.Check(key, false, p.pos(x.Pos()), name, "plain (non-atomic) write of "+fk+", which is accessed with sync/atomic elsewhere")
+							}
+						}
+					}
+				}
+			}
+		})
+	}
+	var fks []string
+	for _, fk := range atomicFields {
+		fks = append(fks, fk)
+	}
+	sort.Strings(fks)
+	for _, fk := range fks {
+		r.Check("field "+fk+" is atomic-only", true, "", "", "every access outside constructors goes through sync/atomic (violations, if any, are listed separately)")
 	}
 }
